@@ -258,6 +258,9 @@ func instrumentFile(pkg *packages.Package, f *ast.File, src []byte, short string
 				break
 			}
 			site := pos(n.Pos())
+			if len(funcStack) > 0 {
+				site = funcStack[len(funcStack)-1] + "@" + site
+			}
 			if b, ok := mt.Key().Underlying().(*types.Basic); !ok || b.Info()&(types.IsOrdered) == 0 {
 				rep.SkippedSites = append(rep.SkippedSites, site+" key type not ordered")
 				edits = append(edits, edit{lb, lb, " verifrt.Tick();"})
